@@ -165,6 +165,7 @@ func AssembleFile(ctx context.Context, name string, idx Index, s Store, seeds []
 		defer f.Close()
 		g.Go(func() error {
 			for job := range in {
+				verifYield("assemble.job")
 				pb.Add(job.segment.lengthChunks())
 				if job.source != nil {
 					// If we have a seedSegment we expect 1 or more chunks between
@@ -204,6 +205,7 @@ func AssembleFile(ctx context.Context, name string, idx Index, s Store, seeds []
 					stats.addBytesCloned(cloned)
 					// Record this segment's been written in the self-seed to make it
 					// available going forward
+					verifYield("assemble.add")
 					ss.add(job.segment)
 					continue
 				}
@@ -224,6 +226,7 @@ func AssembleFile(ctx context.Context, name string, idx Index, s Store, seeds []
 				// Even if we already confirmed that this chunk is present in the
 				// self-seed, we still need to record it as being written, otherwise
 				// the self-seed position pointer doesn't advance as we expect.
+				verifYield("assemble.add")
 				ss.add(job.segment)
 			}
 			return nil
@@ -274,6 +277,7 @@ func AssembleFile(ctx context.Context, name string, idx Index, s Store, seeds []
 	var interrupted bool
 loop:
 	for _, segment := range plan {
+		verifYield("assemble.feed")
 		select {
 		case <-ctx.Done():
 			interrupted = true
